@@ -4,6 +4,7 @@ import Wayfind.Generated.Facts
 import Wayfind.Proofs.ParseErrors
 import Wayfind.Proofs.CheckedParser3
 import Wayfind.Proofs.SearchC3
+import Wayfind.Proofs.ParserC2
 
 /-! # C07 — no input makes the router panic
 The model is written with total list operations (`take`, `drop`, `getElem?`, truncated subtraction), so totality of
@@ -26,8 +27,8 @@ check that yields `panic`; the theorem shows no check ever fires, for every inpu
 `C07_parser_total` that the transcription always answers with expansions or a `TemplateError` (the fuel `(n+2)²` of the
 expander suffices: a potential `needE` bounds scan steps plus nested calls) (loop invariants: the
 range ends inside the input, `group ≤ cursor`, an open parenthesis implies `group ≥ 1`; every recorded parameter starts
-at or before the cursor). The driver runs this transcription next to the list-based model on every `parse` operation
-of every run (class `checked`), and the list-based model is compared with the real crate.
+at or before the cursor). The transcription *is* the list-based model (`C07_checked_parser_is_model`, fourth session; the driver
+still runs both on every `parse` operation, class `checked`), and the list-based model is compared with the real crate.
 (6) *The search's index arithmetic and registry lookup are in range* (`C07_search_never_panics`):
 `Model/CheckedSearch.lean` is a second, position-based transcription of `src/node/search.rs`, loop by loop — the counter
 `consumed`, `path[consumed]`, `&path[..consumed]`, `&path[consumed..]`, `&path[prefix.len()..]`, the eagerly evaluated
@@ -102,6 +103,15 @@ theorem C07_duplicate_ranges_in_bounds (input t n : Bytes) (f fl s sl : Nat)
 or `usize` subtraction is out of range, whatever the input (any bytes, not only UTF-8) -/
 theorem C07_parser_never_panics (input : Bytes) (site : String) : parseC input ≠ .error (.panic site) :=
   parseC_never_panics input site
+
+/-- **the position-based transcription is the list-based model**: same expansions and parts, same `TemplateError` with
+the same positions — so everything proved about `parseTemplates` (it accepts exactly the documented grammar, its errors
+name the real fault: C11, C14) holds of the transcription that keeps the Rust code's indices, and the run-time comparison
+of the two (class `checked`) is a theorem (`Proofs/ParserC1-2`: static run, brace scan, parameter validation, the
+`parse_template` loop, and the group expander by simultaneous induction on the fuel of `expandC` with the potential
+`needL`) -/
+theorem C07_checked_parser_is_model (input : Bytes) : parseC input = liftT (parseTemplates input) :=
+  parseC_eq_parseTemplates input
 
 /-- … and it always answers: expansions, or a `TemplateError` — the fuel of the model's loops is never exhausted -/
 theorem C07_parser_total (input : Bytes) : (∃ ts, parseC input = .ok ts) ∨ (∃ e, parseC input = .error (.terr e)) :=
